@@ -99,7 +99,7 @@ Theorem C03_drop_releases_the_block_with_its_layout :
                  (vec_sentinel s v /\ heap s' = heap s /\ events s' = events s \/
                   exists b bl, vec_at s v b bl /\ nth_error (heap s') b = Some (kill bl) /\
                                exists evs, events s' = EvDealloc (b_size bl) (b_align bl) :: evs))
-    (fun s' => dropped_all s s' v l /\ heap s' = heap s).
+    (fun s' => dropped_all s s' v l /\ heap s' = heap s /\ l <> []).
 Proof. exact drop_vec_abs. Qed.
 
 (* the whole life: empty vector, ANY history of the element + capacity operations, drop: never UB --
